@@ -242,7 +242,7 @@ func expectedCovers(L *Loaded) map[string][]string {
 
 func run(cfg *Config) int {
 	t0 := time.Now()
-	outDir := filepath.Join(cfg.Verif, "out", cfg.ID)
+	outDir := filepath.Join(cfg.workDir(), "out", cfg.ID)
 	os.RemoveAll(outDir)
 	os.MkdirAll(outDir, 0755)
 	L, err := load(cfg)
